@@ -184,6 +184,20 @@ def f_lower(s):
 
 @guarded
 def f_front(s):
+    '''MIP.cards(blocks, skipcomments=True) + Card.content on a text held in
+    memory (MIP.__init__ = read the file + get_block_positions).'''
+    from MIP.mip.main import MIP
+    from MIP.mip.blocks import get_block_positions
+    parser = object.__new__(MIP)
+    parser.text = s
+    parser.bi = get_block_positions(s, firstblock=None)
+    return ser_list2([[c.content() for c in
+                       parser.cards(blocks=b, skipcomments=True)]
+                      for b in 'csd'])
+
+
+@guarded
+def f_front_file(s):
     import impl
     from MIP.mip.main import MIP
     with impl.scratch_dir() as tmp:
